@@ -43,6 +43,7 @@ class Sync:
         self.bitwords = {}
         self.consts = {}          # declaration id -> int: helper parameters bound to a constant at the followed call site
         self.this_alias = set()   # parameters / reference members of followed helper objects that designate the analysed *this
+        self.ref_alias = {}       # reference parameter of a followed helper -> the argument expression it is bound to
 
     # ------------------------------------------------------------------ packed flags
     def int_value(self, e, binds=None):
@@ -76,9 +77,17 @@ class Sync:
 
     def word_load(self, e):
         """(word field) if e is an atomic load of a packed-flag word"""
-        a = self.atomic_op(self.tu.strip(e, casts=True)) if e is not None else None
+        x = self.tu.strip(e, casts=True) if e is not None else None
+        a = self.atomic_op(x) if x is not None else None
         if a is not None and a['op'] == 'load' and a['field'] in self.bitwords:
             return a['field'], a['order']
+        # a const local that holds one load of the word (`const unsigned f = flags.load();`)
+        if x is not None and x.get('kind') == 'DeclRefExpr':
+            d = self.tu.node(x.get('referencedDecl', {}).get('id'))
+            if d is not None and d.get('kind') == 'VarDecl' and 'const' in (d.get('type', {}).get('qualType') or '') and self.tu.kids(d):
+                a = self.atomic_op(self.tu.strip(self.tu.kids(d)[-1], casts=True))
+                if a is not None and a['op'] == 'load' and a['field'] in self.bitwords:
+                    return a['field'], a['order']
         return None
 
     def roles_of(self, word, mask):
@@ -201,12 +210,21 @@ class Sync:
         """(record, member name) if `e` designates a non-static data member, else None"""
         tu = self.tu
         e = tu.strip(e, casts=True)
+        e = self.deref_alias(e)
         if e is None or e.get('kind') != 'MemberExpr':
             return None
         s = tu.sd(e)
         if s.get('k') != 'member' or 'fi' not in s:
             return None
         return (s.get('rec'), e.get('name'))
+
+    def deref_alias(self, e, depth=0):
+        """a reference parameter of a followed helper stands for the expression it was bound to at the call"""
+        while e is not None and depth < 4 and e.get('kind') == 'DeclRefExpr' and \
+                e.get('referencedDecl', {}).get('id') in self.ref_alias:
+            e = self.unwrap_move(self.ref_alias[e['referencedDecl']['id']])
+            depth += 1
+        return e
 
     def field_type(self, e):
         e = self.tu.strip(e, casts=True)
@@ -216,6 +234,7 @@ class Sync:
         """True if the member expression `e` is `this->f` / `f` / `(*this).f`"""
         tu = self.tu
         e = tu.strip(e, casts=True)
+        e = self.deref_alias(e)
         if e is None or e.get('kind') != 'MemberExpr':
             return False
         ks = tu.kids(e)
@@ -261,6 +280,8 @@ class Sync:
             return bool(e.get('value'))
         if e.get('kind') in CALLS:
             return None
+        if e.get('kind') == 'DeclRefExpr' and e.get('referencedDecl', {}).get('id') in self.consts:
+            return self.consts[e['referencedDecl']['id']] != 0     # helper parameter bound to a constant at the followed call
         cv = tu.sd(e).get('cv')
         if cv is not None:
             try:
@@ -307,8 +328,14 @@ class Sync:
                     continue
             return e
 
-    def mentions_field(self, e, fld):
-        return any(self.field(x) == fld for x in self.tu.walk(e) if x.get('kind') == 'MemberExpr')
+    def mentions_field(self, e, fld, depth=0):
+        for x in self.tu.walk(e):
+            if x.get('kind') == 'MemberExpr' and self.field(x) == fld:
+                return True
+            if x.get('kind') == 'DeclRefExpr' and depth < 4 and x.get('referencedDecl', {}).get('id') in self.ref_alias and \
+                    self.mentions_field(self.ref_alias[x['referencedDecl']['id']], fld, depth + 1):
+                return True
+        return False
 
     def mentions_var(self, e, var_id):
         return any(x.get('kind') == 'DeclRefExpr' and x.get('referencedDecl', {}).get('id') == var_id
